@@ -176,6 +176,13 @@ func runC08(r *Report, tier string) {
 	checkLabelLookups(r, "R13.6", "C08")
 	checkEnvelopeRawNil(r, "R12.3")
 	checkDecoderLimits(r, "R07.3")
+	// what the unprotected encoder can emit under labels 7 / 11 (one
+	// countersignature or a list of any length) is not refused by head byte
+	if cs := P.countersigValueDecoder(); cs != nil {
+		checkCountersigValueRefusal(r, "R08.6", cs)
+	} else {
+		r.ob("R08.6", "countersignature-value-decoder", nil, nil, "the countersignature header value decoder tries both forms").fail("no function decodes a header value both as *Countersignature and as []*Countersignature")
+	}
 	// COSE_Key encoder: labels normalised and de-duplicated
 	if kt := P.namedType("Key"); kt != nil {
 		if enc := P.methodOf(kt, "MarshalCBOR"); enc != nil {
